@@ -458,8 +458,13 @@ def _forwarding(ctx, rule="R-FWD", classes=("FPS", "CUR", "PCovFPS", "PCovCUR"),
             ctx.ob(rule, f"{pkg}.{cname} forwards {what} by name", not bad, f"parameters not stored under their own name: {bad}" if bad else f"{len(params) if only is None else len([p for p in params if p in only])} parameters", site, pkg)
             stv = heap.get("selection_type")
             ctx.ob(rule, f"{pkg}.{cname} passes selection_type='{pkg}'", stv is not None and stv.has_const and stv.const == pkg, f"selection_type = {stv!r}", site, pkg)
+    from ..sigrules import selector_siblings, signatures
+
+    for cname in classes:
+        selector_siblings(ctx, rule, cname)
     if rule != "R-FWD":
         return
+    signatures(ctx, rule, classes=("skmatter.sample_selection.VoronoiFPS",))
     cls = P.cls("skmatter.sample_selection.VoronoiFPS")
     I, st = ctx.interp(), State()
     kw = {p: scalar(f"param_{p}") for p in ("n_trial_calculation", "full_fraction", "initialize", "n_to_select", "score_threshold", "progress_bar", "full", "random_state")}
